@@ -7,13 +7,22 @@ from sessions import validate_cases
 
 COVER = [0, 1, 7, 9, 13, 27, 28, 31, 32, 34, 39, 45, 48, 55, 63, 67, 77, 92, 97, 100, 120, 127, 128, 129, 159, 160, 162, 167, 220, 255, 20013]
 PRINTABLE_U = [0xe9, 0x4e2d, 0x1f600, 0x3b1, 0x416, 0x5d0, 0xff21, 0x20ac, 0x2603, 0x1d11e]
+# characters above 0xff that are not printable (the two-digit hexadecimal notation cannot spell them): joiners, direction
+# marks, separators, byte order mark, tag characters, private use, a noncharacter, the last code point
+NONPRINT_U = [0x200d, 0x200c, 0x200e, 0x2028, 0x2029, 0x2060, 0xfeff, 0x61c, 0xe000, 0xf8ff, 0xe0067, 0xf0001, 0xfffe, 0x10ffff, 0x1d173]
 
 
 def model_check(rep, tier, wd):
     prepare_spec_dir(wd)
     r = run_tlc(wd, "MC_KeyNotation", cfg="MC_KeyNotation_len2.cfg", workers=8, timeout=900)
     tlc_require_ok(r, "KeyNotation len<=2 over all bytes")
-    rep.add_tlc("KeyNotation: Decode(Encode(s)) = s, all s of length <= 2 over 0..255 + 3 wide code points", r)
+    rep.add_tlc("KeyNotation: Decode(Encode(s)) = s, all s of length <= 2 over 0..255 + 3 wide code points + 4 non-printable ones above 0xff", r)
+    # the pinned shape of escape() for characters that are not printable above 0xff (\\x followed by all their hexadecimal
+    # digits) is kept as a regression model: TLC must find that it does not read back
+    r = run_tlc(wd, "MC_KeyNotation", cfg="MC_KeyNotation_pinned_high.cfg", workers=2, timeout=600)
+    if r.violation is None or "RoundTripInv" not in r.violation:
+        raise Infra("the pinned shape of escape() above 0xff should violate RoundTripInv (model self-test): %s" % r.violation)
+    rep.notes.append("KeyNotation pinned shape: TLC finds a non-printable character above 0xff that does not read back, as expected")
     if tier == "thorough":
         r = run_tlc(wd, "MC_KeyNotation", cfg="MC_KeyNotation_cover.cfg", workers=8, timeout=1800, xmx="10g")
         tlc_require_ok(r, "KeyNotation len<=4 over class cover")
@@ -23,8 +32,13 @@ def model_check(rep, tier, wd):
 def gen_cases(tier, seed):
     rng = random.Random(seed * 31337 + 3)
     seqs = []
-    for c in list(range(256)) + PRINTABLE_U:
+    for c in list(range(256)) + PRINTABLE_U + NONPRINT_U:
         seqs.append([c])
+    for a in NONPRINT_U:
+        for b in COVER + NONPRINT_U[:4]:
+            seqs.append([a, b])
+            seqs.append([b, a])
+        seqs.append([a, 0x30, 0x64])      # (followed by characters that are hexadecimal digits)
     for a in COVER:
         for b in COVER:
             seqs.append([a, b])
@@ -51,7 +65,7 @@ def gen_cases(tier, seed):
             if b["macro"]:
                 seqs.append([ord(ch) for ch in b["act"]])
     # random longer sequences
-    alpha = list(range(256)) + PRINTABLE_U
+    alpha = list(range(256)) + PRINTABLE_U + NONPRINT_U
     for _ in range(20000 if tier == "thorough" else 3000):
         n = rng.randint(3, 10)
         seqs.append([rng.choice(alpha) if rng.random() < 0.7 else rng.choice(COVER) for _ in range(n)])
